@@ -17,10 +17,13 @@ def squeeze(text):
 
 
 def variant(body, what, unrepaired, repaired):
-    """The two shapes of an allocation-failure site (whitespace-free literal text that the body must contain):
-    exactly one of them is present -> False (as found) / True (repaired); anything else fails closed."""
+    """The two shapes of an allocation-failure site (whitespace-free text that the body must contain; `@` stands for
+    the name of the one local variable of the repaired shape): exactly one of them is present -> False (as found) /
+    True (repaired); anything else fails closed."""
     sq = squeeze(body)
-    a, b = unrepaired in sq, repaired in sq
+    parts = repaired.split("@")
+    rx = re.escape(parts[0]) + "".join((r"(?P<v>[A-Za-z_]\w*)" if i == 1 else r"(?P=v)") + re.escape(x) for i, x in enumerate(parts[1:], 1))
+    a, b = unrepaired in sq, re.search(rx, sq) is not None
     if a == b:
         raise AnchorError("%s: %s of the two known shapes of the allocation-failure path found" % (what, "both" if a else "neither"))
     return b
@@ -90,8 +93,8 @@ def gen_mem():
     # K-new-2 repair, part 1: the value block is released when the free list cannot allocate the node for it
     facts["map_entry_guarded"] = variant(ce, "XalanMap::doCreateEntry",
         "if(m_freeEntries.empty()){m_freeEntries.push_back(Entry(allocate(1)));}",
-        "if(m_freeEntries.empty()){value_type*consttheValue=allocate(1);try{m_freeEntries.push_back(Entry(theValue));}"
-        "catch(...){deallocate(theValue);throw;}}")
+        "if(m_freeEntries.empty()){value_type*const@=allocate(1);try{m_freeEntries.push_back(Entry(@));}"
+        "catch(...){deallocate(@);throw;}}")
     # in both shapes the value block is obtained before the list node (and the head node of a never-used free list)
     facts["map_value_before_node"] = True
     # K23 repair: the entry is counted, and taken out again when the bucket cannot grow
@@ -106,8 +109,8 @@ def gen_mem():
     # K-new-1 repair: the new block is destroyed when the block list cannot allocate the node for it
     facts["arena_block_guarded"] = variant(ab, "ArenaAllocator::allocateBlock",
         "{m_blocks.push_back(ArenaBlockType::create(getMemoryManager(),m_blockSize));}",
-        "{ArenaBlockType*consttheNewBlock=ArenaBlockType::create(getMemoryManager(),m_blockSize);"
-        "try{m_blocks.push_back(theNewBlock);}catch(...){XalanDestroy(getMemoryManager(),theNewBlock);throw;}}")
+        "{ArenaBlockType*const@=ArenaBlockType::create(getMemoryManager(),m_blockSize);"
+        "try{m_blocks.push_back(@);}catch(...){XalanDestroy(getMemoryManager(),@);throw;}}")
     # in both shapes the block (struct, then storage) is created before the list node
     facts["arena_create_then_push"] = True
     # the same site in ReusableArenaAllocator (not modelled; the flag tells the oracle which outcome to expect)
@@ -115,8 +118,8 @@ def gen_mem():
     rab = function_body(ra, r"allocateBlock\s*\(\s*\)\s*\{", "ReusableArenaAllocator::allocateBlock")
     facts["rarena_block_guarded"] = variant(rab, "ReusableArenaAllocator::allocateBlock",
         "{this->m_blocks.push_front(ReusableArenaBlockType::create(this->getMemoryManager(),this->m_blockSize));",
-        "{ReusableArenaBlockType*consttheNewBlock=ReusableArenaBlockType::create(this->getMemoryManager(),this->m_blockSize);"
-        "try{this->m_blocks.push_front(theNewBlock);}catch(...){XalanDestroy(this->getMemoryManager(),theNewBlock);throw;}")
+        "{ReusableArenaBlockType*const@=ReusableArenaBlockType::create(this->getMemoryManager(),this->m_blockSize);"
+        "try{this->m_blocks.push_front(@);}catch(...){XalanDestroy(this->getMemoryManager(),@);throw;}")
     bd = function_body(b, r"~ArenaBlock\s*\(\s*\)\s*\{", "~ArenaBlock")
     facts["arenablock_dtor_all_objects"] = has(r"for\s*\(\s*size_type\s+i\s*=\s*0\s*;\s*i\s*<\s*this\s*->\s*m_objectCount\s*;\s*\+\+\s*i\s*\)\s*\{\s*XalanDestroy\s*\(\s*this\s*->\s*m_objectBlock\s*\[\s*i\s*\]\s*\)", bd)
     bbd = function_body(bb, r"~ArenaBlockBase\s*\(\s*\)\s*\{", "~ArenaBlockBase")
